@@ -77,21 +77,45 @@ func buildCase(tools *pipeline.Tools, r *Recorder, rp *Replay, prefix string, sp
 	}
 	if !br.OK {
 		r.Class("skipped:uncompilable")
+		c.BuildErrors = strings.Join(firstN(br.Errors, 4), " | ")
 		return c, true, nil
 	}
 	return c, false, nil
 }
 
-// runInner compiles the case and runs the inner property in it.
-func runInner(tools *pipeline.Tools, r *Recorder, rp *Replay, prop string, params map[string]string) (string, error) {
-	spec := &rt.Spec{Prop: prop, Params: params}
-	c, skip, err := buildCase(tools, r, rp, strings.ToLower(prop)+"-", spec)
-	if c != nil {
-		defer os.RemoveAll(c.Dir)
+func specFor(prop string) *rt.Spec { return &rt.Spec{Prop: prop} }
+
+func cleanup(c *pipeline.Case) { _ = os.RemoveAll(c.Dir) }
+
+func cleanupDir(d string) { _ = os.RemoveAll(d) }
+
+// buildCaseFull is buildCase that also tells which variant's output fails to build ("" = all fine,
+// "v0"/"v1"/... = the first variant whose generated file does not compile, "?" = plugin failed).
+func buildCaseFull(tools *pipeline.Tools, r *Recorder, rp *Replay, prefix string, spec *rt.Spec) (*pipeline.Case, string, error) {
+	c, skip, err := buildCase(tools, r, rp, prefix, spec)
+	if err != nil || !skip {
+		return c, "", err
 	}
-	if err != nil || skip {
-		return "", err
+	if len(rp.Variants) < 2 {
+		return c, "?", nil
 	}
+	// find the culprit: build the first variant alone
+	first := &Replay{Prop: rp.Prop, Variants: rp.Variants[:1], Extra: rp.Extra}
+	c0, skip0, err := buildCase(tools, r, first, prefix+"solo-", &rt.Spec{Prop: spec.Prop})
+	if c0 != nil {
+		defer os.RemoveAll(c0.Dir)
+	}
+	if err != nil {
+		return c, "", err
+	}
+	if skip0 {
+		return c, rp.Variants[0].Layout.Variant, nil
+	}
+	return c, rp.Variants[1].Layout.Variant, nil
+}
+
+// runBuilt runs the inner property in a compiled case.
+func runBuilt(tools *pipeline.Tools, r *Recorder, rp *Replay, c *pipeline.Case) (string, error) {
 	seed := extraUint(rp, "inner_seed", 1)
 	checks := extraUint(rp, "inner_checks", 100)
 	out := filepath.Join(c.Dir, "result.json")
@@ -126,6 +150,19 @@ func runInner(tools *pipeline.Tools, r *Recorder, rp *Replay, prop string, param
 		return "", pipeline.Infra("case binary failed without a recorded violation:\n%s", lastLines(log, 25))
 	}
 	return "", nil
+}
+
+// runInner compiles the case and runs the inner property in it.
+func runInner(tools *pipeline.Tools, r *Recorder, rp *Replay, prop string, params map[string]string) (string, error) {
+	spec := &rt.Spec{Prop: prop, Params: params}
+	c, skip, err := buildCase(tools, r, rp, strings.ToLower(prop)+"-", spec)
+	if c != nil {
+		defer os.RemoveAll(c.Dir)
+	}
+	if err != nil || skip {
+		return "", err
+	}
+	return runBuilt(tools, r, rp, c)
 }
 
 func lastLines(s string, n int) string {
